@@ -713,3 +713,73 @@ pub fn model_case(p: ModelParams) -> BoxedStrategy<ModelCase> {
         })
         .boxed()
 }
+
+/// Feasibility bias: moves the constant side of `expr rel constant` constraints so that a witness
+/// point (derived from `point_seed`) satisfies them. Random constraint systems are mostly
+/// infeasible; with the bias most models have feasible and infeasible points.
+pub fn bias_feasible(mut case: ModelCase) -> ModelCase {
+    let mut rng = XorShift::new(case.point_seed ^ 0x5bd1e995);
+    let mut env = Env::new();
+    for (name, dom) in &case.vars {
+        let c = candidates(dom, &mut rng);
+        // keep the witness small so that constants stay in the usual range
+        let small: Vec<&Big> = c.iter().filter(|v| v.abs() <= big(8.0)).collect();
+        let v = if small.is_empty() { c[rng.below(c.len())].clone() } else { small[rng.below(small.len())].clone() };
+        env.insert(name.clone(), v);
+    }
+    for c in case.cons.iter_mut() {
+        if c.bare {
+            continue;
+        }
+        let slack = big_frac(rng.below(5) as i64, 4);
+        let quantise = |v: Big| -> Option<f64> {
+            // keep constants dyadic with a small denominator
+            let f = v.to_f64()?;
+            let q = (f * 4.0).round() / 4.0;
+            if q.abs() <= 64.0 { Some(q) } else { None }
+        };
+        match (&c.lhs, &c.rhs) {
+            (e, SExp::Num(_)) if !matches!(e, SExp::Num(_)) => {
+                let Some(v) = e.eval(&env) else { continue };
+                let target = match c.rel {
+                    Cmp::Le => v + slack,
+                    Cmp::Ge => v - slack,
+                    Cmp::Eq => v,
+                };
+                // rounding must not break the direction
+                if let Some(q) = quantise(target.clone()) {
+                    let ok = match c.rel {
+                        Cmp::Le => big(q) >= target - big_frac(0, 1) && c.rel.holds(&e.eval(&env).unwrap(), &big(q)),
+                        Cmp::Ge => c.rel.holds(&e.eval(&env).unwrap(), &big(q)),
+                        Cmp::Eq => c.rel.holds(&e.eval(&env).unwrap(), &big(q)),
+                    };
+                    if ok {
+                        c.rhs = SExp::Num(q);
+                    }
+                }
+            }
+            (SExp::Num(_), e) if !matches!(e, SExp::Num(_)) => {
+                let Some(v) = e.eval(&env) else { continue };
+                let target = match c.rel {
+                    Cmp::Le => v - slack, // constant <= e
+                    Cmp::Ge => v + slack,
+                    Cmp::Eq => v,
+                };
+                if let Some(q) = quantise(target) {
+                    if c.rel.holds(&big(q), &e.eval(&env).unwrap()) {
+                        c.lhs = SExp::Num(q);
+                    }
+                }
+            }
+            _ => {}
+        }
+    }
+    case
+}
+
+/// `model_case` with the feasibility bias applied to two thirds of the cases
+pub fn model_case_biased(p: ModelParams) -> BoxedStrategy<ModelCase> {
+    (model_case(p), 0u8..3)
+        .prop_map(|(c, k)| if k == 0 { c } else { bias_feasible(c) })
+        .boxed()
+}
